@@ -1,14 +1,148 @@
 (** C05 — sampling a spectrum from phi is exact binomial integration on every code path.
-    Only statements; every proof is [exact <lemma>]. *)
+    Only statements; every proof is [exact <lemma>].  Model: Model/FromPhi.v (instance: Coq's reals).
+    Notation: [rsum] = sum of a list, [vadd]/[vscal] = entrywise sum / scalar multiple of flat arrays,
+    [B n d t] = C(n,d) t^d (1-t)^(n-d), [nd ops shape] = apply the 1-D operators of [ops] along the axes, last axis first. *)
 From Coq Require Import ZArith Reals List Lra Lia.
 From Dadi Require Import Base.Num Base.NumR Model.FromPhi Proofs.FromPhiBase Proofs.FromPhiMass1D Proofs.FromPhiLin
-  Proofs.FromPhiND Proofs.FromPhiPaths.
+  Proofs.FromPhiND Proofs.FromPhiPaths Proofs.FromPhiSums Proofs.FromPhiProject Proofs.FromPhiMarg Proofs.FromPhiMore
+  Proofs.FromPhiIntegral Proofs.FromPhiAdmix.
 Import ListNotations.
 Local Open Scope R_scope.
 
+(** *** linear in phi, on every path of the dispatcher (d = 1..5; analytic, direct, ascertained, admix_props);
+    whether the call is refused does not depend on phi *)
 Theorem C05_from_phi_linear : forall (o : @opts R) ns xxs shape a b phi psi,
   length phi = prodl shape -> length psi = prodl shape ->
   from_phi o ns xxs shape (vadd (vscal a phi) (vscal b psi))
   = olin a (from_phi o ns xxs shape phi) b (from_phi o ns xxs shape psi).
 Proof. exact from_phi_linear. Qed.
 Print Assumptions C05_from_phi_linear.
+
+(** the inbreeding paths are linear operators as well (any dimension, ploidies, F) *)
+Theorem C05_inbreeding_linear : forall het ns pls (Fs : list R) xxs shape,
+  length ns = length shape -> length pls = length shape -> length Fs = length shape -> length xxs = length shape ->
+  linop (prodl shape) (outsize (inb_ops het ns pls Fs xxs)) (nd (inb_ops het ns pls Fs xxs) shape).
+Proof. intros; apply nd_linop, inb_ops_ok; assumption. Qed.
+
+(** *** total = trapezoid mass.  1-D semi-analytic path: every n, every grid (also overshooting [0,1]: the clipped grid) *)
+Theorem C05_total_equals_trapz_mass_1D : forall n (xx phi : list R),
+  rsum (analytic1D n xx phi) = trapz (map clip xx) phi.
+Proof. exact analytic1D_total. Qed.
+Print Assumptions C05_total_equals_trapz_mass_1D.
+
+(** the two identities behind it:  sum_d I_x(d+1, n-d+1) = (n+1) x  and  sum_d (d+1) I_x(d+2, n-d+1) = C(n+2,2) x^2 *)
+Theorem C05_incomplete_beta_sums : forall n (x : R),
+  rsum (map (fun d => betainc_int (d + 1) (n - d + 1) x) (seq 0 (S n))) = INR (n + 1) * x /\
+  rsum (map (fun d => INR (d + 1) * betainc_int (d + 2) (n - d + 1) x) (seq 0 (S n))) = INR (n + 2) * (INR (n + 2) - 1) / 2 * x * x.
+Proof. exact betainc_sums. Qed.
+
+(** 2-D..5-D semi-analytic paths (grids inside [0,1]), direct paths, inbreeding paths, admix_props paths: any dimension *)
+Theorem C05_total_equals_trapz_mass_linalg : forall ns xxs shape phi,
+  Forall (Forall (fun x => 0 <= x <= 1)) xxs -> length ns = length shape -> length xxs = length shape -> length phi = prodl shape ->
+  rsum (nd (linalg_ops ns xxs) shape phi) = trapz_nd xxs shape phi.
+Proof. exact linalg_total. Qed.
+Theorem C05_total_equals_trapz_mass_direct : forall ns xxs shape phi,
+  Forall2 (fun xx L => length xx = L) xxs shape -> length ns = length shape -> length phi = prodl shape ->
+  rsum (nd (direct_ops None ns xxs) shape phi) = trapz_nd xxs shape phi.
+Proof. exact direct_total. Qed.
+Theorem C05_total_equals_trapz_mass_inbreeding : forall ns pls (Fs : list R) xxs shape phi,
+  Forall2 (fun xx L => length xx = L) xxs shape -> length ns = length shape -> length pls = length shape -> length Fs = length shape ->
+  Forall (fun f => 0 < f < 1) Fs -> Forall (fun np => snd np <> 0%nat /\ (fst np mod snd np = 0)%nat) (combine ns pls) ->
+  length phi = prodl shape ->
+  rsum (nd (inb_ops None ns pls Fs xxs) shape phi) = trapz_nd xxs shape phi.
+Proof. exact inbreeding_total. Qed.
+Theorem C05_total_equals_trapz_mass_admix : forall (A : list (list R)) ns xxs shape phi,
+  length A = length ns -> Forall2 (fun xx L => length xx = L) xxs shape ->
+  rsum (admix_nd A ns xxs shape phi) = trapz_nd xxs shape phi.
+Proof. exact admix_total. Qed.
+Print Assumptions C05_total_equals_trapz_mass_admix.
+
+(** *** the d-dimensional recursion is the 1-D analytic function applied along every axis (grids inside [0,1]) ... *)
+Theorem C05_nD_recursion_is_iterated_1D : forall ns xxs shape phi, Forall (Forall (fun x => 0 <= x <= 1)) xxs ->
+  nd (linalg_ops ns xxs) shape phi = nd (analytic1D_ops ns xxs) shape phi.
+Proof. exact nD_recursion_is_iterated_1D. Qed.
+(** ... i.e. multiplication by the Kronecker product of the 1-D matrices (for any list of linear 1-D operators) ... *)
+Theorem C05_nD_is_kronecker : forall ops shape, ops_ok ops shape ->
+  forall phi, length phi = prodl shape -> nd ops shape phi = mat_apply (Knd ops shape) (prodl shape) (outsize ops) phi.
+Proof. exact nd_is_kronecker. Qed.
+(** ... and the order of the axes is irrelevant: last axis first (the code) = first axis first (Fubini for finite sums) *)
+Theorem C05_axis_order_irrelevant : forall ops shape phi, ops_ok ops shape -> length phi = prodl shape ->
+  nd ops shape phi = nd_rev ops shape phi.
+Proof. exact nd_axis_order. Qed.
+Print Assumptions C05_axis_order_irrelevant.
+Theorem C05_paths_are_linear_operator_lists : forall het ns xxs shape, length ns = length shape -> length xxs = length shape ->
+  ops_ok (linalg_ops ns xxs) shape /\ ops_ok (direct_ops het ns xxs) shape.
+Proof. intros; split; [apply linalg_ops_ok | apply direct_ops_ok]; assumption. Qed.
+
+(** *** sampling n and projecting to m is sampling m: at the level of the sampling kernel (hence for every path whose
+    entries are integrals / trapezoid sums of the kernel), and for the direct path with or without ascertainment.
+    [project_of_sample] for the semi-analytic entries follows from the kernel identity and C05_analytic_is_exact_integral
+    by linearity of the integral; that last step is not formalised (the statement proved is the _partial one). *)
+Theorem C05_project_of_sample_kernel : forall n m i (x : R), (m <= n)%nat -> (i <= m)%nat ->
+  rsum (map (fun j => hyperw n m j i * bker n j x) (seq 0 (S n))) = bker m i x.
+Proof. exact kernel_projection. Qed.
+Theorem C05_project_of_sample_partial : forall het n m xx (phi : list R), (m <= n)%nat -> length xx = length phi ->
+  project1 n m (direct_ax het n xx phi) = direct_ax het m xx phi.
+Proof. exact project_of_sample_direct. Qed.
+Print Assumptions C05_project_of_sample_partial.
+
+(** *** marginalising the first population after sampling = integrating it out of phi before sampling (any path made of
+    linear 1-D operators whose outputs sum to the trapezoid integral: semi-analytic, direct, inbreeding).
+    Full statement for an arbitrary axis k: same with [sum_axis k] / [trapz_axis k]; proved for the first axis. *)
+Theorem C05_marginalise_commutes_partial : forall T nout ops' L rest xx phi,
+  ops_ok ((T, nout) :: ops') (L :: rest) -> sums_to_trapz (T, nout) L xx -> length phi = prodl (L :: rest) ->
+  sum_axis0 (outsize ops') nout (nd ((T, nout) :: ops') (L :: rest) phi)
+  = nd ops' rest (trapz_axis0 xx (prodl rest) L phi).
+Proof. exact marginalise_axis0. Qed.
+Print Assumptions C05_marginalise_commutes_partial.
+Theorem C05_marginalisable_axes : forall n (xx v : list R),
+  (rsum (analytic1D n xx v) = trapz (map clip xx) v) /\
+  (Forall (fun x => 0 <= x <= 1) xx -> rsum (analytic_ax n xx v) = trapz xx v) /\
+  (length xx = length v -> rsum (direct_ax false n xx v) = trapz xx v).
+Proof. intros; split; [apply analytic1D_total | split; [apply analytic_ax_total | apply direct_ax_total]]. Qed.
+
+(** *** admix_props with identity proportions is the direct path *)
+Theorem C05_admix_identity_is_direct : forall ns xxs shape phi,
+  Forall2 (fun xx L => length xx = L) xxs shape -> length ns = length shape -> length phi = prodl shape ->
+  admix_nd (idmat (length ns)) ns xxs shape phi = nd (direct_ops None ns xxs) shape phi.
+Proof. exact admix_identity_is_direct. Qed.
+Print Assumptions C05_admix_identity_is_direct.
+
+(** *** sampling probabilities sum to one *)
+Theorem C05_betabinom_conv_sums_to_one : forall n p (a b : R), rising (a + b) p <> 0 ->
+  rsum (map (fun i => bbconv_pow i n a b p) (seq 0 (S (n * p)))) = 1.
+Proof. exact betabinom_conv_sum1. Qed.
+Print Assumptions C05_betabinom_conv_sums_to_one.
+Theorem C05_admix_probs_sum_to_one : forall (A : list (list R)) ns coords, length A = length ns ->
+  rsum (map (fun idx => admix_g A ns idx coords) (idxs ns)) = 1.
+Proof. exact admix_probs_sum1. Qed.
+Theorem C05_binomial_probs_sum_to_one : forall n (x : R), rsum (map (fun i => bker n i x) (seq 0 (S n))) = 1.
+Proof. exact bker_sum1. Qed.
+
+(** *** the dispatcher has no 5-D branch except the semi-analytic one (in the code: [fs] unbound), whatever phi *)
+Theorem C05_5D_only_analytic : forall (o : @opts R) ns xxs L1 L2 L3 L4 L5 phi,
+  (o_force o = true \/ o_het o <> None \/ o_admix o <> None) ->
+  from_phi o ns xxs [L1; L2; L3; L4; L5] phi = None.
+Proof. exact from_phi_5D_refused. Qed.
+
+(** non-vacuity: a concrete 1-D case, n = 2 on the grid {0, 1/2, 1} with phi = (4, 2, 1): the dispatcher accepts it and the
+    spectrum sums to the trapezoid mass 9/4 (the implementation returns 97/96, 35/48, 49/96) *)
+Example C05_nonvacuous :
+  rsum (analytic1D 2 [0; 1/2; 1] [4; 2; 1]) = 9/4 /\ @trapz R _ [0; 1/2; 1] [4; 2; 1] = 9/4 /\
+  (exists fs, from_phi {| o_admix := None; o_het := None; o_force := false |} [2%nat] [[0; 1/2; 1]] [3%nat] [4; 2; 1] = Some fs /\ rsum fs = 9/4).
+Proof. exact nonvacuous_example. Qed.
+
+From Coquelicot Require Import Coquelicot.
+(** *** entry d of the 1-D semi-analytic spectrum is the exact integral of C(n,d) t^d (1-t)^(n-d) against the
+    piecewise-linear interpolant of phi, interval by interval (no hypothesis on the grid) *)
+Theorem C05_analytic_is_exact_integral : forall n d (xx phi : list R), (d <= n)%nat ->
+  nth d (analytic1D n xx phi) 0 =
+  ivsum (fun x0 x1 p0 p1 => RInt (fun t => B n d t * (p0 + (p1 - p0) / (x1 - x0) * (t - x0))) x0 x1) (map clip xx) phi.
+Proof. exact analytic1D_is_integral. Qed.
+Print Assumptions C05_analytic_is_exact_integral.
+
+(** its engine: d/dx I_x(a+1, N-a+1) = (N+1) C(N,a) x^a (1-x)^(N-a) *)
+Theorem C05_incomplete_beta_derivative : forall N a (x : R), (a <= N)%nat ->
+  is_derive (fun t => tailB (S N) (S a) t) x (INR (S N) * B N a x).
+Proof. exact tail_derive. Qed.
+
